@@ -340,6 +340,63 @@ def types_depth2_reduced():
 # --------------------------------------------------------------------------------------------------
 
 
+CHAIN_TYPES = [("Int", ["Optional", "Str"]), (["Literal", "a", "b"], ["Literal", "a", "b", "c"]), ("Int", ["Union", "Int", "Str"]), ("NonEmptyStr", "Str"), (["List", "Int"], ["List", ["Union", "Int", "Str"]])]
+
+
+def check_chains(rec):
+    """Three-level chains: the offending override sits in a class BETWEEN the checked leaf and the ancestor
+    (A: an intermediate class widens a field without declaring it; B: an intermediate class narrows Optional[T] to T by
+    @make_mandatory and the leaf re-declares Optional[T] without declaring it). If the plugin check accepts the leaf,
+    no value accepted by the leaf may be rejected by any ancestor after serialisation."""
+    n = 0
+    for narrow, wide in CHAIN_TYPES:
+        for kind in ("widen-in-middle", "mandatory-then-optional"):
+            case = {"kind": "chain", "chain": kind, "narrow": narrow, "wide": wide}
+            try:
+                if kind == "widen-in-middle":
+                    P = sl.make_class(f"CP{next(_counter)}", sl.MetadataSchema, {"f": narrow})
+                    if plugin_check(P) is not None:
+                        continue
+                    M = sl.make_class(f"CM{next(_counter)}", P, {"f": wide})
+                    L = sl.make_class(f"CL{next(_counter)}", M, {"g": ["Optional", "Int"]})
+                    probe = [{"f": v} for v in values_for(narrow, wide, P, M)]
+                else:
+                    P = sl.make_class(f"CP{next(_counter)}", sl.MetadataSchema, {"f": ["Optional", narrow]})
+                    if plugin_check(P) is not None:
+                        continue
+                    M = sl.make_mandatory("f")(sl.make_class(f"CM{next(_counter)}", P, {}))
+                    L = sl.make_class(f"CL{next(_counter)}", M, {"f": ["Optional", narrow]})
+                    probe = [{}] + [{"f": v} for v in values_for(["Optional", narrow], narrow, P, M)]
+                err = plugin_check(L)
+            except Exception as e:  # refused at class creation time
+                err = e
+            n += 1
+            if err is not None:
+                rec.check(True, "", "")
+                rec.case(("chain", kind, canon(narrow), canon(wide)), nontrivial=True)
+                continue
+            bad = None
+            for obj in probe:
+                try:
+                    with watchdog(10):
+                        inst = L.parse_obj(obj)
+                        js = inst.json()
+                except Exception:
+                    continue
+                for anc in (M, P):
+                    try:
+                        with watchdog(10):
+                            anc.parse_raw(js)
+                    except Exception as e:  # noqa
+                        bad = (obj, anc.__name__, type(e).__name__)
+                        break
+                if bad:
+                    break
+            rec.check(bad is None, f"c13:chain:{kind}:accepted-although-ancestor-rejects", f"leaf of a {kind} chain ({sl.tstr(narrow)} / {sl.tstr(wide)}) passes the plugin check without a declared override, but {bad[0] if bad else None} accepted by the leaf is rejected by ancestor {bad[1] if bad else None} ({bad[2] if bad else None})", case, ["schema/core.py:check_types", "schema/core.py:check_overrides", "schema/decorators.py:make_mandatory"])
+            rec.case(("chain", kind, canon(narrow), canon(wide)), nontrivial=True)
+    return n
+
+
 def _extra_policy(rec):
     """(c) parent forbids extras: a child that allows extras / adds a field must be refused (else witness)."""
     for how in ("allow", "ignore", "newfield"):
@@ -401,6 +458,7 @@ def run(tier: str, seed: int) -> dict:
                 anc.instance(S, {"installed": n}, "I:" + n, raw)
 
     # (c) extra policy --------------------------------------------------------------------------
+    n_chains = check_chains(rec)
     _extra_policy(rec)
 
     # (b) type pairs ----------------------------------------------------------------------------
@@ -513,6 +571,15 @@ def replay(case: dict):
         if P is None or perr is not None:
             return False, "parent refused"
         PairChecker(rec)._declared(P, case["P"], case["C"])
+    elif kind == "chain":
+        global CHAIN_TYPES
+        saved = CHAIN_TYPES
+        CHAIN_TYPES = [(case["narrow"], case["wide"])]
+        try:
+            check_chains(rec)
+        finally:
+            CHAIN_TYPES = saved
+        rec.violations = [v for v in rec.violations if case["chain"] in v["signature"]]
     elif kind == "extra":
         _extra_policy(rec)
         rec.violations = [v for v in rec.violations if v["signature"].endswith(case["how"])]
